@@ -77,6 +77,7 @@ type Exec struct {
 	condLock        map[*Term]Value
 	protKeys        map[string]bool
 	heldAtEntry     map[string]bool
+	heldEntryObjs   []monObj // monitor instances whose lock the function is entered with (requires held)
 	usedPureMethods map[string]bool
 	boxedTypes      map[string]types.Type
 	ifaceTexts      map[string][]string
